@@ -257,7 +257,7 @@ def attr_oracle(ctx, eff, specs, used, quick):
                 pristine = quiet(spec["make"], rng)
                 base_attrs = set(attr_names(pristine))
                 # single-question references
-                ref, usable = {}, []
+                ref, usable, failing = {}, [], []
                 for m in W:
                     try:
                         ref[m] = fresh_value(spec, pristine, scratch, m, {})
@@ -267,6 +267,24 @@ def attr_oracle(ctx, eff, specs, used, quick):
                             ctx.count(f"{cname}:attr:unreproducible")
                     except Exception as ex:  # noqa
                         ctx.count(f"{cname}:attr:query-raises:{type(ex).__name__}")
+                        failing.append((m, type(ex).__name__))
+                # a measure that cannot answer on a fresh object but can after another query
+                # depends on the history just as well (it reads a slot it does not make sure of)
+                for m, exn in failing:
+                    for q1 in usable:
+                        scratch.clean()
+                        t = quiet(spec["twin"], pristine)
+                        try:
+                            call(t, q1, {})
+                            v = call(t, m, {})
+                        except Exception:  # noqa
+                            continue
+                        ctx.fail({"kind": "answers-only-after", "class": cname, "q1": q1, "q2": m},
+                                 f"{cname}: {m}() raises {exn} on a fresh object but answers after "
+                                 f"{q1}() (it depends on an attribute another query leaves behind)",
+                                 {"class": cname, "q1": q1, "q2": m, "fresh": "raises " + exn,
+                                  "after_q1": brief(v)})
+                        break
                 # generating expressions on a fresh object; classes of equal value on the links
                 scratch.clean()
                 ev = quiet(spec["twin"], pristine)
